@@ -362,22 +362,115 @@ def activate_path_shape():
 
 def announce_update_shape():
     """announceUpdate: validate=True converts with pobj.datatype(value) (no limit check), a failure becomes the readerror;
-    the value is stored, readerror replaced, and the dispatcher is told iff pobj.export"""
+    the value is stored, readerror replaced, and the dispatcher is told iff pobj.export; an error equal to the stored
+    read error returns early"""
     f = find_func(find_class(parse(MB), 'Module'), 'announceUpdate')
     s = [_norm(n) for n in _stmts(f)]
     ok = 'value=pobj.datatype(value)' in s and 'pobj.value=value' in s and 'pobj.readerror=err' in s
     ok = ok and any(isinstance(n, ast.If) and _norm(n.test) == 'pobj.export'
                     and _norm(n.body[0]) == 'self.updateCallback(self,pobj)' for n in _stmts(f))
+    # an error equal to the stored read error is not announced again (and nothing is stored)
+    ok = ok and any(isinstance(n, ast.If) and _norm(n.test) == 'secop_error(err)==pobj.readerror'
+                    and isinstance(n.body[-1], ast.Return) and n.body[-1].value is None for n in _stmts(f))
     st = find_func(find_class(parse(P), 'Parameter'), '__set__')
     ok = ok and any(_norm(n) == 'obj.announceUpdate(self.name,value)' for n in _stmts(st))
     return 'bool', cbool(ok)
+
+
+# ------------------------------------------------------------------ generated read_/write_ wrappers, automatic properties
+def _init_subclass():
+    return find_func(find_class(parse(MB), 'HasAccessibles'), '__init_subclass__')
+
+
+def _inner_funcs(name):
+    return [n for n in ast.walk(_init_subclass()) if isinstance(n, ast.FunctionDef) and n.name == name]
+
+
+def _free_outer_names(func, bound_outside):
+    """names a nested function reads that are neither its arguments nor assigned in its body before use
+    (names of the enclosing loop, evaluated late) - restricted to the given names of the enclosing scope"""
+    args = {a.arg for a in func.args.args + func.args.kwonlyargs}
+    assigned = {t.id for n in ast.walk(func) if isinstance(n, (ast.Assign, ast.AugAssign))
+                for t in (n.targets if isinstance(n, ast.Assign) else [n.target]) if isinstance(t, ast.Name)}
+    assigned |= {h.name for h in ast.walk(func) if isinstance(h, ast.ExceptHandler) and h.name}
+    used = {n.id for st in func.body for n in ast.walk(st) if isinstance(n, ast.Name) and isinstance(n.ctx, ast.Load)}
+    return (used - args - assigned) & set(bound_outside)
+
+
+def access_wrappers_use_instance_datatype():
+    """HasAccessibles.__init_subclass__: the generated read wrapper binds only pname and rfunc at class creation and converts
+    what read_<pname> returned with the datatype of the INSTANCE's Parameter, looked up on every call
+    (`pobj = self.accessibles[pname]; value = pobj.datatype(value)` inside the try); a failure is announced
+    (`self.announceUpdate(pname, err=e)`) and re-raised, success is announced with validate=False.  The write wrapper
+    validates with `self.parameters[pname].datatype.validate`, looked up on every call.  Neither wrapper reads the
+    class-level `pobj` of the enclosing loop."""
+    rf = [f for f in _inner_funcs('new_rfunc') if any(a.arg == 'rfunc' for a in f.args.args)]
+    wf = _inner_funcs('new_wfunc')
+    if len(rf) != 1 or len(wf) != 1:
+        raise Shape('__init_subclass__: expected one read wrapper with an rfunc argument and one write wrapper')
+    rf, wf = rf[0], wf[0]
+    ok = [a.arg for a in rf.args.args] == ['self', 'pname', 'rfunc'] and [_norm(d) for d in rf.args.defaults] == ['pname', 'rfunc']
+    ok = ok and not rf.args.kwonlyargs and rf.args.vararg is None and rf.args.kwarg is None
+    tries = [n for n in ast.walk(rf) if isinstance(n, ast.Try)]
+    if len(tries) != 1:
+        raise Shape('read wrapper: expected exactly one try statement')
+    t = tries[0]
+    body = [_norm(n) for n in t.body]
+    ok = ok and body[0] == 'value=rfunc(self)' and body[-2:] == ['pobj=self.accessibles[pname]', 'value=pobj.datatype(value)']
+    # the only conversions / calls on the value are the two above
+    calls = [_norm(c) for c in walk_type(t, ast.Call)]
+    ok = ok and calls.count('pobj.datatype(value)') == 1 and calls.count('rfunc(self)') == 1
+    ok = ok and len(t.handlers) == 1 and _norm(t.handlers[0].type) == 'Exception' and not t.orelse and not t.finalbody
+    hb = [_norm(n) for n in t.handlers[0].body]
+    ok = ok and 'self.announceUpdate(pname,err=e)' in hb and hb[-1] == 'raise'
+    after = [_norm(n) for n in _stmts(rf) if n.lineno > t.end_lineno]
+    ok = ok and after == ['self.announceUpdate(pname,value,validate=False)', 'returnvalue']
+    ok = ok and not _free_outer_names(rf, ['pobj', 'accessibles', 'cls', 'wfunc', 'cfuncs', 'rname'])
+    # write wrapper
+    ok = ok and [a.arg for a in wf.args.args] == ['self', 'value', 'pname', 'wfunc', 'check_funcs']
+    ok = ok and [_norm(d) for d in wf.args.defaults] == ['pname', 'wfunc', 'cfuncs']
+    ws = [_norm(n) for n in _stmts(wf)]
+    ok = ok and 'validate=self.parameters[pname].datatype.validate' in ws and 'new_value=validate(value)' in ws
+    ok = ok and ws[-2:] == ['self.announceUpdate(pname,new_value,validate=False)', 'returnnew_value']
+    ok = ok and ws.index('validate=self.parameters[pname].datatype.validate') < ws.index('new_value=validate(value)')
+    ok = ok and not _free_outer_names(wf, ['pobj', 'accessibles', 'cls', 'rfunc', 'cfuncs'])
+    return 'bool', cbool(ok)
+
+
+def auto_props_after_cfg():
+    """Module.__init__: the loop applying the module properties of the configuration (`for key in self.propertyDict:` ...
+    `self.setProperty(key, ...)`) comes BEFORE the assignments of the automatic properties self.implementation,
+    self.interface_classes, self.features, each of which is assigned exactly once in Module.__init__ (and nowhere
+    else in the class), unconditionally (top level of the function body)"""
+    init = _module_init()
+    loops = [n for n in init.body if isinstance(n, ast.For) and _norm(n.iter) == 'self.propertyDict'
+             and any(_norm(c).startswith('self.setProperty(key,') for c in walk_type(n, ast.Call))]
+    if len(loops) != 1:
+        raise Shape('Module.__init__: loop applying configured module properties not found')
+    cfg_end = loops[0].end_lineno
+    cls = find_class(parse(MB), 'Module')
+    after = True
+    for attr in ('implementation', 'interface_classes', 'features'):
+        top = [n for n in init.body if isinstance(n, ast.Assign) and any(is_self_attr(t, attr) for t in n.targets)]
+        everywhere = [n for n in ast.walk(cls) if isinstance(n, ast.Attribute) and isinstance(n.ctx, (ast.Store, ast.Del))
+                      and is_self_attr(n, attr)]
+        if len(top) != 1 or len(everywhere) != 1:
+            raise Shape(f'Module: expected exactly one unconditional assignment to self.{attr}')
+        after = after and top[0].lineno > cfg_end
+    # no other setProperty on these names
+    for c in walk_type(cls, ast.Call):
+        s = _norm(c)
+        if s.startswith('self.setProperty(') and any(f"'{a}'" in s for a in ('implementation', 'interface_classes', 'features')):
+            raise Shape('Module: explicit setProperty of an automatic property')
+    return 'bool', cbool(after)
 
 
 FACTS = [predefined_accessibles, secop_base_classes, interface_classes_limit, features_from_direct_feature_bases,
          fixexport_shape, add_accessible_registers_final_export, finish_calls_class_constant,
          finish_reexports_constant, main_unit_after_cfg_and_dollar_replace, export_properties_nondefault_rule,
          property_export_table, for_export_shapes, export_accessibles_shape, change_path_shape, read_path_shape,
-         do_path_shape, activate_path_shape, announce_update_shape]
+         do_path_shape, activate_path_shape, announce_update_shape, access_wrappers_use_instance_datatype,
+         auto_props_after_cfg]
 
 FINGERPRINTS = {
     'Accessible.fixExport': lambda: find_func(find_class(parse(P), 'Accessible'), 'fixExport'),
@@ -395,4 +488,5 @@ FINGERPRINTS = {
     'Dispatcher.handle_activate': lambda: _disp('handle_activate'),
     'make_update': lambda: find_func(parse(DI), 'make_update'),
     'HasUnit.set_main_unit': lambda: find_func(find_class(parse(DT), 'HasUnit'), 'set_main_unit'),
+    'HasAccessibles.__init_subclass__': _init_subclass,
 }
